@@ -17,7 +17,7 @@
 (* Dev_NoRamGate: cartridge RAM is accessible whatever the enable register *)
 (* says (the emulator does not gate it).                                   *)
 (***************************************************************************)
-EXTENDS Bits
+EXTENDS Bits, Sequences
 
 (* ---- header tables (bytes 0x147, 0x148, 0x149) ------------------------- *)
 KindOfType(t) == CASE t = 0 -> "rom"
@@ -68,4 +68,19 @@ RomIndex(cart, a) == IF a < 16384 THEN a ELSE 16384 * RomBank(cart) + (a % 16384
 HasRam(cart) == cart.ramBytes > 0
 RamIndex(cart, a) == (8192 * RamBank(cart) + (a % 8192)) % cart.ramBytes                \* a in 0xA000..0xBFFF, HasRam
 NoRamValue == 255           \* what 0xA000-0xBFFF reads on a cartridge without RAM
+
+(* ---- loading a ROM file (C19) ---------------------------------------------- *)
+\* hdr: the 80 header bytes at file offsets 0x100..0x14F as a sequence (hdr[i + 1] = byte at 0x100 + i)
+HdrByte(hdr, off) == hdr[off - 256 + 1]              \* off = absolute file offset 0x100..0x14F
+RECURSIVE ChecksumFrom(_, _, _)
+ChecksumFrom(hdr, off, acc) == IF off > 332 THEN acc ELSE ChecksumFrom(hdr, off + 1, (acc - HdrByte(hdr, off) - 1) % 256)
+HeaderChecksum(hdr) == ChecksumFrom(hdr, 308, 0)     \* bytes 0x134..0x14C
+\* the decision for a file of fileLen bytes (hdr is only meaningful when fileLen >= 0x150)
+Load(fileLen, hdr) ==
+  IF fileLen < 336 THEN [ok |-> FALSE, why |-> "too-short"]
+  ELSE IF HeaderChecksum(hdr) # HdrByte(hdr, 333) THEN [ok |-> FALSE, why |-> "checksum"]
+  ELSE IF KindOfType(HdrByte(hdr, 327)) = "unsupported" THEN [ok |-> FALSE, why |-> "type"]
+  ELSE IF fileLen < 16384 * RomBanksOfCode(HdrByte(hdr, 328)) THEN [ok |-> FALSE, why |-> "smaller-than-declared"]
+  ELSE [ok |-> TRUE, why |-> "", rom |-> 16384 * RomBanksOfCode(HdrByte(hdr, 328)), ram |-> RamBytesOfCode(HdrByte(hdr, 329)),
+        kind |-> KindOfType(HdrByte(hdr, 327))]
 =============================================================================
